@@ -824,6 +824,8 @@ func (e *FnExec) convert(st *State, x *ssa.Convert) {
 				sel := func(a *Term) *Term { return App("select", "Int", a, l) }
 				e.addFact(st, Forall([]*Term{l}, Ite(Eq(Root(l), Root(arr)), Imp(And(App("(_ is pidx)", "Bool", PathOf(l)), Le(IntLit(0), i), Lt(i, n)), Eq(sel(nw), strAt(v, i))), Eq(sel(nw), sel(old)))))
 				e.setMem(st, class, sort, nw)
+				// ... and reading those bytes back as a string gives the string again
+				e.addFact(st, Eq(UF("bytes2str", StrSort, MkSlice(arr, IntLit(0), n, n), nw), v))
 			}
 		}
 		e.set(x, MkSlice(arr, IntLit(0), n, n))
